@@ -150,6 +150,30 @@ def pair_cases(N, M, tier, ids=(0, 0)):
                                    test=len(xpre) + len(ypre), fault=(k,))
 
 
+def narrow_big_cases(N, M, ms):
+    """C12 with a 16-bit size_type (max_size() = ms in the thousands): a few calls at and beyond the limit; harness only
+    (the lines carry thousands of values: no point in running the list model over them)"""
+    x = 'a'
+    for s in sorted(set([0, ms // 2 + 1, ms - 1, ms])):
+        pre = ['newn %s %d 0' % (x, s)]
+        room = ms - s
+        ops = []
+        for n in sorted(set(c for c in [1, room, room + 1, room + 1000, 65535] if 0 < c <= 65535)):
+            ops += ['insn %s %d %d v54' % (x, s // 2, n), 'insn %s %d %d v54' % (x, s, n)]
+        for n in sorted(set([s, ms - 1, ms, ms + 1, 40000, 65535])):
+            ops += ['rsz %s %d' % (x, n), 'rszv %s %d v55' % (x, n), 'rsv %s %d' % (x, n), 'asn %s %d 56' % (x, n)]
+        for n in sorted(set(c for c in [room, room + 1, ms + 1] if c > 0)):
+            ops += ['asr %s fw %s' % (x, vals(70, n)), 'app %s fw %s' % (x, vals(70, n)), 'insr %s %d fw %s' % (x, s // 2, vals(70, n)), 'app %s in %s' % (x, vals(70, n))]
+        ops += ['pb %s v50' % x, 'ins %s 0 v52' % x]
+        for line in ops:
+            yield dict(cls='narrow16:' + line.split()[0], state='size%d' % s, lines=pre + [line, 'pb %s v77' % x, 'clr %s' % x, 'del %s' % x], test=1)
+    for n in sorted(set([ms - 1, ms, ms + 1, 40000, 65535])):
+        for line in ('newn %s %d 0' % (x, n), 'newv %s %d 9 0' % (x, n)):
+            yield dict(cls='narrow16:' + line.split()[0], state='none', lines=[line, 'pb %s v5' % x, 'del %s' % x], test=0)
+    for n in (ms, ms + 1):
+        yield dict(cls='narrow16:newr', state='none', lines=['newr %s fw 0 %s' % (x, vals(1, n)), 'pb %s v5' % x, 'del %s' % x], test=0)
+
+
 def double_fault_cases(N, M, tier):
     """pairs of fault indices for operations with roll-back handlers (C06): the second fault can fire inside a handler"""
     x = 'a'
